@@ -58,6 +58,16 @@ CLAIMED = {
    technique="stateless model checking of the real engine: exhaustive interleaving exploration under a controlled scheduler (deviation bound, happens-before caching) with a porcupine linearizability oracle",
    text="10 scenarios (2-3 client threads x 1-2 put/get/delete on colliding keys; the engine's own background flush thread; explicit flush and compaction callers; memtable 1 B so that every write switches the table, signals the flush and rotates the log) are explored over all interleavings up to 2 deviations (3 thorough; one 3-thread scenario one less). Every recorded call/return history must be linearizable against a whole-store model with failed writes as no-ops, final reads included; every acknowledged put must be in the log exactly once and no failed put at all.",
    note="SC interleavings of visible operations; data races are C07's subject. Bounds: threads, operations per thread, deviation bound."),
+ "C04": dict(
+   level="model_checking", design="§3 C04, §2.2",
+   technique="stateless model checking of the real engine: exhaustive interleaving exploration (controlled scheduler, deviation bound, happens-before caching, post-state prediction) with a porcupine strict-serializability oracle over transaction-level operations",
+   text="6 scenarios of 2-3 concurrent transactions (read-modify-write with commit or rollback; read-only with repeated reads and a scan) are explored over all interleavings up to 2 deviations for 2 threads and 1 for 3 threads (thorough: +1). Each transaction is one operation spanning begin..commit with its observed reads and its write set; the history, closed by a final read-only transaction, must be strictly serializable; own writes must be visible inside the transaction; read-only transactions must be repeatable and their scan must equal their reads.",
+   note="Non-transactional writes are excluded as in the statement. SC interleavings of visible operations."),
+ "C17": dict(
+   level="model_checking", design="§3 C17, §2.2",
+   technique="bounded-exhaustive call sequences on one transaction plus stateless interleaving exploration of the transaction registry with timeouts, clock jumps and tickers as explorer-chosen environment events; deadlock detection by the scheduler",
+   text="(A) every sequence of <=4 (5) calls {get, put, delete, scan, commit, rollback} on a read-write and a read-only transaction: first finish takes effect once, later calls return the closed error and change nothing, a probe begin is granted afterwards. (B) 8 registry scenarios (begin waiting for the lock while the 10 s timeout fires, abandonment + idle cleanup direct and via ticker, connection cleanup, graceful shutdown, commit racing rollback, stale cleanup racing commit) explored over all interleavings and all ready select cases up to 2 (3) deviations; after every terminal state a probe BeginTransaction(false) must be granted (otherwise the deadlock witness names the blocked call sites), a write is visible iff its commit succeeded, commit and rollback never both succeed.",
+   note="Virtual time; a client never requests a second transaction while holding one."),
 }
 
 ALL = ["C%02d" % i for i in range(1, 21)]
